@@ -99,9 +99,20 @@ def ser (tx : Tx) : Bytes :=
 def toAddress (b : Bytes) : Bytes :=
   if b.length > 20 then b.drop (b.length - 20) else b ++ List.replicate (20 - b.length) 0
 
-/-- `PublicKey.GetAddress().GetHexString()` for a recovered 65-byte key. -/
+/-- `BytesToPublicKey(pk)` (`elliptic.Unmarshal`): the coordinates of a 65-byte
+    uncompressed key as integers (`big.Int.SetBytes`). -/
+def pubX (pk : Bytes) : Nat := beToNat ((pk.drop 1).take 32)
+def pubY (pk : Bytes) : Nat := beToNat ((pk.drop 33).take 32)
+
+/-- the digest input of `PublicKey.GetID`: `X.Bytes()` and `Y.Bytes()` each copied
+    right-aligned into a 32-byte slot (`copy(digest[32-len(x):], x)`, `copy(digest[64-len(y):], y)`) -/
+def getIDInput (pk : Bytes) : Bytes :=
+  padLeft 32 (natToBE (pubX pk)) ++ padLeft 32 (natToBE (pubY pk))
+
+/-- `PublicKey.GetAddress().GetHexString()` for a recovered 65-byte key:
+    Keccak of the padded coordinates, last 20 bytes, `0x` + lower-case hex. -/
 def nativeAddrStr (cr : Crypto) (pk : Bytes) : Bytes :=
-  toHex0x (toAddress (cr.keccak (pk.drop 1)))
+  toHex0x (toAddress (cr.keccak (getIDInput pk)))
 
 inductive Verdict where
   | ok | chainId | hash | sign | illegal
@@ -303,7 +314,7 @@ def nativeQueries (cr : Crypto) (cfg : ChainCfg) (height : Nat) (tx : Tx) : List
         (match recoverPubkey cr tx.hash sg.bytes with
          | none => []
          | some pk => libVerifyQ pk tx.hash (sg.bytes.take 64) ++
-            (if libVerify cr pk tx.hash (sg.bytes.take 64) then [.kec (pk.drop 1)] else [])))
+            (if libVerify cr pk tx.hash (sg.bytes.take 64) then [.kec (getIDInput pk)] else [])))
 
 def recoverPlainQueries (cr : Crypto) (sighash : Bytes) (r s : Nat) (vb : Int) : List Query :=
   if vb.natAbs ≥ 256 then []
